@@ -125,7 +125,10 @@ STAT_RE = re.compile(r"(\d+) states generated, (\d+) distinct states found")
 
 
 def _tlc_cmd(module, cfg, workers, metadir, extra, xss="1g", xmx="6g", deque=False):
-    jopts = ["-XX:+UseParallelGC", "-Xss" + xss, "-Xmx" + xmx]
+    if workers == 1:
+        jopts = ["-XX:+UseSerialGC", "-XX:ActiveProcessorCount=2", "-XX:TieredStopAtLevel=1", "-Xss" + xss, "-Xmx" + xmx]
+    else:
+        jopts = ["-XX:+UseParallelGC", "-XX:ParallelGCThreads=8", "-Xss" + xss, "-Xmx" + xmx]
     if deque:
         jopts.append("-Dtlc2.tool.queue.IStateQueue=StateDeque")
     return ["java"] + jopts + ["-cp", JAR, "tlc2.TLC", "-workers", str(workers), "-metadir", metadir, "-cleanup",
@@ -212,6 +215,7 @@ def tlc_generate(module, cfg_path, out_path, wd, workers=8, simulate=None, env=N
     st["wall"] = time.time() - t0
     st["tail"] = "".join(tail[-60:])
     shutil.rmtree(metadir, ignore_errors=True)
+    log("[tlc] %s generated %d cases, %d distinct states, %.1fs" % (module, st["cases"], st["distinct"], st["wall"]))
     if simulate:
         # simulation mode reports differently
         m = re.search(r"(\d+) states checked", st["tail"])
@@ -288,7 +292,7 @@ def tlc_validate(module, trace_path, wd, shards=None, env=None, timeout=3600):
     n = count_lines(trace_path)
     if n == 0:
         raise ToolError("empty trace " + trace_path)
-    k = shards or min(NCPU, max(1, n // 200))
+    k = shards or min(8, n // 1500 + 1)
     parts = shard_file(trace_path, k, wd, os.path.basename(trace_path))
     agg = {"lines": 0, "mismatches": [], "states": 0, "distinct": 0, "notes": [], "wall": 0.0}
     t0 = time.time()
@@ -303,6 +307,7 @@ def tlc_validate(module, trace_path, wd, shards=None, env=None, timeout=3600):
             for (ln, det) in r["mismatches"]:
                 agg["mismatches"].append((ix[ln - 1], det))
     agg["wall"] = time.time() - t0
+    log("[tlc] %s validated %d lines in %d shards, %.1fs, %d mismatches" % (module, agg["lines"], len(parts), agg["wall"], len(agg["mismatches"])))
     for p, _ in parts:
         try:
             os.remove(p)
@@ -445,3 +450,40 @@ class Result:
         log("[%s] %s: evaluations=%d distinct_nontrivial=%d states=%d violations=%d known=%d wall=%.1fs" % (
             self.prop, self.tier, self.cov["evaluations"], self.cov["distinct_nontrivial"], self.cov["states"], len(fresh), sum(v[1] for v in kf.values()), time.time() - self.t0))
         return 1 if fresh else 0
+
+
+def standard_flow(res, wd, gens, mode, trace_module, nrand, seed, profile="debug", extra_cases=(), harness_extra=(), shards=None, gen_workers=None):
+    """gens: list of dicts(module, constants, invariants, [simulate]).  TLC generates the cases and checks
+    the model invariants; the harness runs the real code on them (+ nrand of its own seeded cases);
+    the Trace_* spec referees.  Returns (trace_path, {line_no: [mismatch tags]})."""
+    cases = os.path.join(wd, "cases.ndjson")
+    open(cases, "w").close()
+    tot = 0
+    for i, g in enumerate(gens):
+        cfg = os.path.join(wd, "%s_%d.cfg" % (g["module"], i))
+        write_cfg(cfg, constants=g.get("constants"), invariants=g.get("invariants", []) , constraint=g.get("constraint"))
+        part = os.path.join(wd, "cases_%d.ndjson" % i)
+        st = tlc_generate(g["module"], cfg, part, wd, workers=g.get("workers", gen_workers or NCPU), simulate=g.get("simulate"), timeout=g.get("timeout", 1800))
+        if st["violated"]:
+            raise ToolError("specification invariant violated in %s: %s\n%s" % (g["module"], st["violated"], st["tail"][-1500:]))
+        res.add_states(st)
+        tot += st["cases"]
+        res.cov["parts"]["tlc_cases_%s_%d" % (g["module"], i)] = st["cases"]
+        with open(cases, "a") as out, open(part) as f:
+            for line in f:
+                out.write(line)
+        os.remove(part)
+    with open(cases, "a") as out:
+        for c in extra_cases:
+            out.write(json.dumps(c) + "\n")
+            tot += 1
+    trace = os.path.join(wd, "trace.ndjson")
+    aborts = run_harness_supervised([mode, "--cases", cases, "--seed", seed, "--n", nrand] + list(harness_extra), trace, profile=profile)
+    res.cov["parts"]["worker_aborts"] = len(aborts)
+    v = tlc_validate(trace_module, trace, wd, shards=shards)
+    res.add_states(v)
+    res.cov["traces_validated_against_impl"] += v["lines"]
+    bad = {}
+    for ln, det in v["mismatches"]:
+        bad.setdefault(ln, []).append(det.strip('"'))
+    return trace, bad
